@@ -120,6 +120,11 @@ theorem chunks_length (m n : Nat) (l : List Rat) (h : l.length = n * m) :
     · rw [List.length_take, h, Nat.succ_mul]; omega
     · exact ih _ hd r hr
 
+theorem chunks_count {α} (m n : Nat) (l : List α) : (chunks m n l).length = n := by
+  induction n generalizing l with
+  | zero => rfl
+  | succ n ih => simp [chunks, ih]
+
 theorem addRows_length (a b : List Rat) (h : a.length = b.length) : (addRows a b).length = b.length := by
   induction a generalizing b with
   | nil => cases b <;> simp_all [addRows]
@@ -153,5 +158,221 @@ theorem foldr_addRows (m : Nat) (rows : List (List Rat)) (h : ∀ r ∈ rows, r.
     simp only [List.foldr_cons, List.map_cons, List.sum_cons]
     refine ⟨by rw [addRows_length _ _ (by rw [hr, h1]), h1], ?_⟩
     rw [addRows_sum _ _ (by rw [hr, h1]), h2]
+
+/-! ### scaling commutes with the marginals -/
+theorem sum_map_mul_right (l : List Rat) (s : Rat) : (l.map (· * s)).sum = l.sum * s := by
+  induction l with
+  | nil => simp
+  | cons a l ih => simp only [List.map_cons, List.sum_cons, ih]; ring
+
+theorem chunks_map {α β} (f : α → β) (m n : Nat) (l : List α) :
+    chunks m n (l.map f) = (chunks m n l).map (List.map f) := by
+  induction n generalizing l with
+  | zero => rfl
+  | succ n ih =>
+    have hd : List.drop m (l.map f) = (l.drop m).map f := by simp
+    have ht : List.take m (l.map f) = (l.take m).map f := by simp
+    simp only [chunks, List.map_cons, hd, ht, ih]
+
+/-- the spatial marginal at factor `s` is the unscaled spatial marginal times `s` -/
+theorem spatialCounts_scale (F : Forecast) (s : Rat) :
+    spatialCounts { F with scale := s } = (spatialCounts { F with scale := 1 }).map (· * s) := by
+  have h1 : data { F with scale := 1 } = F.base := by simp [data]
+  have h2 : data { F with scale := s } = F.base.map (· * s) := rfl
+  simp only [spatialCounts, rowsOf, h1, h2, chunks_map, List.map_map]
+  apply List.map_congr_left
+  intro r _
+  simp [Function.comp, sum_map_mul_right]
+
+/-! ### the map layout -/
+
+/-- cells hashed elsewhere do not touch node `p` -/
+theorem hashLoop_skip (p : Nat × Nat) (L : List (Cell × (Nat × Nat))) (k : Nat) (st : Bool × Option Nat)
+    (h : p ∉ L.map Prod.snd) : hashLoop p L k st = st := by
+  induction L generalizing k st with
+  | nil => rfl
+  | cons e L ih =>
+    obtain ⟨c, q⟩ := e
+    simp only [List.map_cons, List.mem_cons, not_or] at h
+    have hq : ¬ q = p := fun e => h.1 e.symm
+    simp only [hashLoop, if_neg hq]
+    exact ih _ _ h.2
+
+/-- with distinct positions, the node of cell `n` shows cell `n`, and its mask is open iff the cell's flag is 1 -/
+theorem hashLoop_hit (p : Nat × Nat) (L : List (Cell × (Nat × Nat))) (k : Nat) (st : Bool × Option Nat) (n : Nat) (c : Cell)
+    (hnd : (L.map Prod.snd).Nodup) (hn : L[n]? = some (c, p)) :
+    hashLoop p L k st = (st.1 || decide (c.flag = 1), some (k + n)) := by
+  induction L generalizing k st n with
+  | nil => simp at hn
+  | cons e L ih =>
+    obtain ⟨c', q⟩ := e
+    simp only [List.map_cons, List.nodup_cons] at hnd
+    cases n with
+    | zero =>
+      simp only [List.getElem?_cons_zero, Option.some.injEq, Prod.mk.injEq] at hn
+      obtain ⟨rfl, rfl⟩ := hn
+      simp only [hashLoop, if_true]
+      rw [hashLoop_skip _ _ _ _ hnd.1]; rfl
+    | succ n =>
+      simp only [List.getElem?_cons_succ] at hn
+      have hmem : p ∈ L.map Prod.snd := by
+        have := List.mem_of_getElem? hn
+        exact List.mem_map.mpr ⟨(c, p), this, rfl⟩
+      have hq : ¬ q = p := fun e => hnd.1 (e ▸ hmem)
+      simp only [hashLoop, if_neg hq]
+      rw [ih (k + 1) st n hnd.2 hn]
+      congr 2; omega
+
+/-- the mask of a node stays closed when every cell hashed there has a flag other than 1 -/
+theorem hashLoop_mask (p : Nat × Nat) (L : List (Cell × (Nat × Nat))) (k : Nat) (st : Bool × Option Nat)
+    (h : ∀ e ∈ L, e.2 = p → e.1.flag ≠ 1) : (hashLoop p L k st).1 = st.1 := by
+  induction L generalizing k st with
+  | nil => rfl
+  | cons e L ih =>
+    obtain ⟨c, q⟩ := e
+    simp only [hashLoop]
+    rw [ih _ _ (fun e he => h e (List.mem_cons_of_mem _ he))]
+    split
+    · rename_i hq
+      have := h (c, q) List.mem_cons_self hq
+      simp [this]
+    · rfl
+
+/-- what node `p` shows, as a sum over the cells (at most one term is not zero when positions are distinct);
+    `w` lists the cells' values, aligned with `L` -/
+def valAt : List (Cell × (Nat × Nat)) → List Rat → Nat × Nat → Rat
+  | [], _, _ => 0
+  | (c, q) :: rest, w, p => (if q = p ∧ c.flag = 1 then w.head?.getD 0 else 0) + valAt rest w.tail p
+
+theorem valAt_not_mem (L : List (Cell × (Nat × Nat))) (w : List Rat) (p : Nat × Nat) (h : p ∉ L.map Prod.snd) :
+    valAt L w p = 0 := by
+  induction L generalizing w with
+  | nil => rfl
+  | cons e L ih =>
+    obtain ⟨c, q⟩ := e
+    simp only [List.map_cons, List.mem_cons, not_or] at h
+    have hq : ¬ q = p := fun e => h.1 e.symm
+    simp [valAt, hq, ih _ h.2]
+
+/-- the value `get_cartesian` writes at a node (NaN counted as 0) -/
+def shown (v : List Rat) (st : Bool × Option Nat) : Rat := ((if st.1 then st.2 else none).bind (fun k => v[k]?)).getD 0
+
+theorem shown_hashLoop (p : Nat × Nat) (L : List (Cell × (Nat × Nat))) (k : Nat) (st : Bool × Option Nat) (v : List Rat)
+    (hnd : (L.map Prod.snd).Nodup) (hst : st.1 = false) :
+    shown v (hashLoop p L k st) = valAt L (v.drop k) p := by
+  induction L generalizing k st with
+  | nil => simp [hashLoop, shown, hst, valAt]
+  | cons e L ih =>
+    obtain ⟨c, q⟩ := e
+    simp only [List.map_cons, List.nodup_cons] at hnd
+    have htail : (v.drop k).tail = v.drop (k + 1) := by simp [List.tail_drop]
+    simp only [hashLoop, valAt, htail]
+    by_cases hq : q = p
+    · subst hq
+      rw [if_pos rfl, hashLoop_skip _ _ _ _ hnd.1, valAt_not_mem _ _ _ hnd.1]
+      by_cases hf : c.flag = 1
+      · simp [shown, hst, hf, List.head?_drop]
+      · simp [shown, hst, hf]
+    · rw [if_neg hq, ih (k + 1) st hnd.2 hst]
+      simp [hq]
+
+theorem sum_range_ite (n b : Nat) (x : Rat) :
+    ((List.range n).map (fun j => if b = j then x else 0)).sum = if b < n then x else 0 := by
+  induction n with
+  | zero => simp
+  | succ n ih =>
+    rw [List.range_succ, List.map_append, List.sum_append, ih]
+    by_cases h1 : b < n
+    · have : ¬ b = n := by omega
+      simp [h1, this, Nat.lt_succ_of_lt h1]
+    · by_cases h2 : b = n
+      · subst h2; simp
+      · have : ¬ b < n + 1 := by omega
+        simp [h1, h2, this]
+
+theorem sum_map_add' {α} (l : List α) (f g : α → Rat) :
+    (l.map (fun a => f a + g a)).sum = (l.map f).sum + (l.map g).sum := by
+  induction l with
+  | nil => simp
+  | cons a l ih => simp only [List.map_cons, List.sum_cons, ih]; ring
+
+theorem sum_map_zero {α} (l : List α) : (l.map (fun _ => (0 : Rat))).sum = 0 := by
+  induction l with
+  | nil => rfl
+  | cons a l ih => simp only [List.map_cons, List.sum_cons, ih]; ring
+
+/-- summing a map layout over all nodes -/
+def gridSum (ny nx : Nat) (f : Nat × Nat → Rat) : Rat :=
+  ((List.range ny).map (fun i => ((List.range nx).map (fun j => f (i, j))).sum)).sum
+
+theorem gridSum_add (ny nx : Nat) (f g : Nat × Nat → Rat) :
+    gridSum ny nx (fun p => f p + g p) = gridSum ny nx f + gridSum ny nx g := by
+  unfold gridSum
+  rw [← sum_map_add']
+  congr 1
+  apply List.map_congr_left
+  intro i _
+  exact sum_map_add' _ _ _
+
+theorem gridSum_zero (ny nx : Nat) : gridSum ny nx (fun _ => 0) = 0 := by
+  unfold gridSum
+  simp only [sum_map_zero]
+
+theorem gridSum_indicator (ny nx : Nat) (q : Nat × Nat) (x : Rat) (h1 : q.1 < ny) (h2 : q.2 < nx) :
+    gridSum ny nx (fun p => if q = p then x else 0) = x := by
+  unfold gridSum
+  obtain ⟨a, b⟩ := q
+  have inner : ∀ i, ((List.range nx).map (fun j => if (a, b) = (i, j) then x else 0)).sum = if a = i then x else 0 := by
+    intro i
+    by_cases hi : a = i
+    · subst hi
+      have : (fun j => if (a, b) = (a, j) then x else (0 : Rat)) = fun j => if b = j then x else 0 := by
+        funext j; simp
+      rw [this, sum_range_ite]; simp [show b < nx from h2]
+    · have : (fun j => if (a, b) = (i, j) then x else (0 : Rat)) = fun _ => 0 := by
+        funext j; simp [hi]
+      rw [this, sum_map_zero]; simp [hi]
+  simp only [inner]
+  rw [sum_range_ite]; simp [show a < ny from h1]
+
+/-- the sum of the values of the cells whose flag is 1 -/
+def flaggedSum : List (Cell × (Nat × Nat)) → List Rat → Rat
+  | [], _ => 0
+  | (c, _) :: rest, w => (if c.flag = 1 then w.head?.getD 0 else 0) + flaggedSum rest w.tail
+
+theorem gridSum_valAt (ny nx : Nat) (L : List (Cell × (Nat × Nat))) (w : List Rat)
+    (hin : ∀ e ∈ L, e.2.1 < ny ∧ e.2.2 < nx) : gridSum ny nx (valAt L w) = flaggedSum L w := by
+  induction L generalizing w with
+  | nil => simp only [flaggedSum]; exact gridSum_zero ny nx
+  | cons e L ih =>
+    obtain ⟨c, q⟩ := e
+    have hq := hin (c, q) List.mem_cons_self
+    have : valAt ((c, q) :: L) w = fun p => (if q = p ∧ c.flag = 1 then w.head?.getD 0 else 0) + valAt L w.tail p := by
+      funext p; rfl
+    rw [this, gridSum_add, ih w.tail (fun e he => hin e (List.mem_cons_of_mem _ he))]
+    simp only [flaggedSum]
+    congr 1
+    by_cases hf : c.flag = 1
+    · simp only [hf, and_true, if_true]
+      exact gridSum_indicator ny nx q _ hq.1 hq.2
+    · simp only [hf, and_false, if_false]
+      exact gridSum_zero ny nx
+
+theorem flaggedSum_all (L : List (Cell × (Nat × Nat))) (w : List Rat) (hf : ∀ e ∈ L, e.1.flag = 1)
+    (hl : w.length = L.length) : flaggedSum L w = w.sum := by
+  induction L generalizing w with
+  | nil =>
+    have : w = [] := List.eq_nil_of_length_eq_zero (by simpa using hl)
+    subst this; rfl
+  | cons e L ih =>
+    obtain ⟨c, q⟩ := e
+    cases w with
+    | nil => simp at hl
+    | cons x w =>
+      have := hf (c, q) List.mem_cons_self
+      simp only at this
+      simp only [flaggedSum, this, if_true, List.head?_cons, Option.getD_some, List.tail_cons, List.sum_cons]
+      rw [ih w (fun e he => hf e (List.mem_cons_of_mem _ he)) (by simpa using hl)]
+
 
 end ForecastFile
